@@ -202,6 +202,26 @@ def pool(contract, seed=0, limit=4000):
         elif meth == "__call__":
             yield from cap((fn, (p, v)) for p in props() for v in vals[::3])
         return
+    if key.endswith("orderer:get_children") or key.endswith("orderer:_get_path"):
+        def elems():
+            from statham.schema.elements import Array, Element, Object, String, AnyOf, Not
+            from statham.schema.property import Property
+            for mk in element_makers():
+                try:
+                    yield mk()
+                except Exception:
+                    continue
+            inner = String()
+            yield Array(inner, contains=Element(), additionalItems=False)
+            yield Array([inner, Element()], additionalItems=String())
+            yield Element(propertyNames=String(maxLength=3), additionalProperties=Array(inner), patternProperties={"^x": inner},
+                          dependencies={"a": inner, "b": ["a"]}, properties={"a": Property(inner)})
+            yield AnyOf(inner, Not(inner))
+        if key.endswith("get_children"):
+            yield from cap((fn, (e, s)) for e in elems() for s in (None, set()))
+        else:
+            yield from cap((fn, (e, contract.inst)) for e in elems())
+        return
     if key.endswith(":_attempt_schema"):
         yield from cap((fn, (mk(), v, UNBOUND_PROPERTY)) for mk in element_makers(1) for v in vals[::4])
         return
